@@ -107,8 +107,10 @@ class Geometry:
 # generators
 
 # eager jnp code compiles once per shape: sizes are drawn from a fixed table (corner sizes first)
-SHAPES = [(1, 1), (2, 1), (2, 3), (3, 3), (1, 4), (3, 4), (4, 4), (5, 4), (4, 7), (7, 5), (12, 7), (5, 12)]
-SHAPES_MORE = SHAPES + [(6, 6), (9, 4), (4, 9), (16, 8), (8, 16), (13, 11), (24, 5), (2, 8)]
+# (quick: 8 shapes, every one costs a few seconds of XLA compilation; thorough adds SHAPES_MORE)
+SHAPES = [(1, 1), (2, 1), (2, 3), (1, 4), (4, 4), (5, 4), (4, 7), (7, 5)]
+SHAPES_MORE = SHAPES + [(3, 3), (3, 4), (12, 7), (5, 12), (6, 6), (9, 4), (4, 9), (16, 8), (8, 16), (13, 11),
+                        (24, 5), (2, 8)]
 VSHAPES = [(1, 1), (1, 2), (2, 1), (2, 2), (3, 5), (5, 3), (4, 4), (9, 2), (2, 9), (7, 8)]
 
 
@@ -125,21 +127,23 @@ def make_grid(sh, nlon, nlat, spacing, offset):
 SPACINGS = ['gauss', 'equiangular', 'equiangular_with_poles']
 
 
-def grid_pair_specs(rng, n):
+def grid_pair_specs(rng, n, n_forced=9):
   """(source spec, target spec, tag); spec = (nlon, nlat, spacing, offset)."""
   forced = [
       # the recorded finding: 0.05 % of a cell (NaN not propagated), then 0.2 % (propagated)
       ((8, 5, 'gauss', 0.1), (8, 4, 'equiangular_with_poles', 0.1 + 0.0005 * TWO_PI / 8), 'sliver-0.05%'),
       ((8, 5, 'gauss', 0.0), (8, 5, 'gauss', 0.002 * TWO_PI / 8), 'sliver-0.2%'),
       ((8, 4, 'gauss', 0.0), (8, 4, 'gauss', 0.0), 'identical'),
-      ((8, 4, 'gauss', 0.0), (4, 2, 'gauss', 0.0), 'coarser-nested'),
+      # both grids offset by more than one period (`% period` matters), still nested
+      ((8, 4, 'gauss', 6.5), (4, 2, 'gauss', 6.5), 'coarser-nested'),
       ((4, 2, 'equiangular', 0.0), (8, 4, 'equiangular', 0.0), 'finer-nested'),
       ((6, 3, 'gauss', 0.3), (5, 4, 'equiangular', -0.2), 'non-nested'),
       ((4, 1, 'gauss', 0.0), (5, 1, 'equiangular', 1.0), 'one-latitude'),
+      # thorough tier only (n_forced below)
       ((12, 6, 'equiangular_with_poles', 6.5), (9, 7, 'gauss', 0.0), 'offset-beyond-2pi'),
       ((16, 8, 'gauss', 0.0), (16, 8, 'gauss', np.pi / 16), 'half-cell-offset'),
   ]
-  out = forced[:n]
+  out = forced[:min(n, n_forced)]
   while len(out) < n:
     specs = []
     for _ in range(2):
@@ -228,7 +232,7 @@ def run(ctx: common.Ctx):
 
   # ================================================================ correspondence
   # ---- 1. coordinate vectors: raw (sizes 1,2,3 first, non-uniform) and from Grid objects
-  nvec = ctx.n(24, 360)
+  nvec = ctx.n(16, 360)
   for ci in range(nvec):
     ns, nt = pick_shape(ctx, SHAPES, ci)
     kind = ['uniform', 'mild', 'strong'][ci % 3]
@@ -358,9 +362,9 @@ def run(ctx: common.Ctx):
             f'{fvec(f[:, i, j])}', 'regrid_hybrid_to_sigma', inp, out[:, i, j], 'vec')
 
   # ---- 5. the regridder objects: weights and __call__ with NaN patterns, both skipna modes
-  npairs = ctx.n(11, 100)
+  npairs = ctx.n(8, 100)          # quick: 7 forced pairs + 1 random pair
   pairs = []
-  for pi, (ss, ts, tag) in enumerate(grid_pair_specs(rng, npairs)):
+  for pi, (ss, ts, tag) in enumerate(grid_pair_specs(rng, npairs, ctx.n(7, 9))):
     gs, gt = make_grid(sh, *ss), make_grid(sh, *ts)
     geo = Geometry(gs.longitudes, gs.latitudes, gt.longitudes, gt.latitudes)
     ctx.dist[f'pair:{tag}'] += 1
